@@ -85,7 +85,7 @@ class C14Interactions(Machine):
                            "(buggify: u=0, 1-2^-53, CC/NC and low-y thresholds, Poisson 0/large)"], "stub": []}
     assumptions = ["bounds carry a 1e-12 slack", "buggify violations reported only if the minimised trace "
                    "needs <=3 injected draws"]
-    required_counters = ("probe.particles_checked", "draws.injected", "probe.secondaries_won",
+    required_counters = ("draws.rand", "probe.particles_checked", "draws.injected", "probe.secondaries_won",
                          "probe.sigma_sum_checked")
 
     def draw_config(self, rng):
